@@ -1304,6 +1304,9 @@ pub(crate) fn verify_mmr_proof<'a, T: Iterator<Item = &'a HeaderView>>(
     };
 
     let digests_with_positions = {
+        // The MMR library keeps one leaf per position and drops the others unverified: two
+        // different headers must not claim the same block number.
+        let mut hashes_by_number = std::collections::HashMap::new();
         let res = headers
             .map(|header| {
                 let index = header.number();
@@ -1312,6 +1315,10 @@ pub(crate) fn verify_mmr_proof<'a, T: Iterator<Item = &'a HeaderView>>(
                         "block-{} is not in the chain root which ends at block-{}",
                         index, chain_root_end_number
                     ));
+                }
+                if *hashes_by_number.entry(index).or_insert_with(|| header.hash()) != header.hash()
+                {
+                    return Err(format!("two different headers for block-{}", index));
                 }
                 let position = leaf_index_to_pos(index);
                 let digest = header.digest();
